@@ -5,6 +5,7 @@ package main
 // un-contracted /repo callees, and named proof obligations.
 
 import (
+	"regexp"
 	"fmt"
 	"go/constant"
 	"go/token"
@@ -154,6 +155,7 @@ type Exec struct {
 	havocCount int
 	oldStack   []map[ssa.Value]Val
 	oldCollect []map[ssa.Value]Val
+	lastDiscoverWrites [][2]string
 	specDepth  int
 	quantN     int
 	topFrame   *frame
@@ -388,19 +390,23 @@ func (e *Exec) storeObj(h *Heap, ref string, t types.Type, v string) {
 	case *types.Struct:
 		if isTimeType(t) {
 			c := e.derefComp(t)
+			e.noteWrite(c, ref)
 			h.m[c] = store(e.hget(h, c), ref, v)
 			return
 		}
 		si := e.s.structOf(t)
 		for i := 0; i < u.NumFields(); i++ {
 			c, _ := e.fieldComp(t, i)
+			e.noteWrite(c, ref)
 			h.m[c] = store(e.hget(h, c), ref, fieldOf(si, i, v))
 		}
 	case *types.Array:
 		c := e.elemComp(u.Elem())
+		e.noteWrite(c, ref)
 		h.m[c] = store(e.hget(h, c), ref, v)
 	default:
 		c := e.derefComp(t)
+		e.noteWrite(c, ref)
 		h.m[c] = store(e.hget(h, c), ref, v)
 	}
 }
@@ -468,6 +474,7 @@ func (e *Exec) storeAt(h *Heap, a *Addr, v string) {
 		h.m[a.Comp] = e.nameIfBig("g", e.compSort[a.Comp], updatePath(cur, a.Path, v))
 		return
 	}
+	e.noteWrite(a.Comp, a.Ref)
 	arr := e.hget(h, a.Comp)
 	cur := sel(arr, a.Ref)
 	nv := updatePath(cur, a.Path, v)
@@ -1097,7 +1104,7 @@ func (e *Exec) loopHeader(f *frame, li *loopInfo, loops map[*ssa.BasicBlock]*loo
 			e.s.assert(fmt.Sprintf("(>= %s (- %d))", base, bodyMaxAlloc))
 		}
 	}
-	e.reassertPrivate(h, h2)
+	e.reassertPrivateAtLoopHead(h, h2, e.lastDiscoverWrites)
 	for _, c := range invs {
 		t := e.evalInvariant(f, c, li, h2, nil)
 		e.s.assert(implies(g, t))
@@ -1216,6 +1223,7 @@ func (e *Exec) discoverLoopMods(f *frame, li *loopInfo, loops map[*ssa.BasicBloc
 	}
 	e.runBlocks(f, order, loops, sub, nil, "")
 	e.discover = e.discover[:len(e.discover)-1]
+	e.lastDiscoverWrites = rec.writes
 	full = rec.full || e.havocCount != hv
 	set := map[string]bool{}
 	for _, bh := range rec.backHeaps {
@@ -1279,6 +1287,41 @@ type discoverRec struct {
 	base      *Heap
 	backHeaps []*Heap
 	full      bool
+	writes    [][2]string // (component, reference term) of every heap write executed in the body
+}
+
+// noteWrite records a heap write for the loops whose bodies are being explored (see loop-head havoc).
+func (e *Exec) noteWrite(comp, ref string) {
+	for i := range e.discover {
+		e.discover[i].writes = append(e.discover[i].writes, [2]string{comp, ref})
+	}
+}
+
+var allocLitRe = regexp.MustCompile(`^\(- \d+\)$`)
+
+// reassertPrivateAtLoopHead: the loop-head havoc forgets the components the body writes; an object this function
+// allocated and has not published keeps its content in such a component only if no write of the body can have
+// targeted it (every write into the component went to a different, literally known allocation). A loop that
+// fills a private buffer must say what the buffer holds in its invariant.
+func (e *Exec) reassertPrivateAtLoopHead(old, nw *Heap, writes [][2]string) {
+	for _, p := range e.priv {
+		for _, c := range p.comps {
+			o, n := e.hget(old, c), e.hget(nw, c)
+			if o == n {
+				continue
+			}
+			touched := false
+			for _, w := range writes {
+				if w[0] == c && !(allocLitRe.MatchString(w[1]) && w[1] != p.ref) {
+					touched = true
+					break
+				}
+			}
+			if !touched {
+				e.s.assert(eq(sel(n, p.ref), sel(o, p.ref)))
+			}
+		}
+	}
 }
 
 // backEdge is called when execution reaches a back edge u -> header.
